@@ -797,11 +797,8 @@ func streamPaste(ctx *core.Ctx) {
 		}
 		class := "partition"
 		if g.tags["diamond"] {
+			// the two routes may compare half-resolved paths (findings/C06.txt)
 			class = "diamond"
-			if g.tags["project_directory-abs"] {
-				// the two routes may compare half-resolved paths (findings/C06.txt)
-				class = "diamond+abs-project_directory"
-			}
 		}
 		ctx.Add("c06.paste", pasteArgs(g, main, entries, c06Envs[ctx.Rng.Intn(len(c06Envs))], "paste", class))
 	}
@@ -974,8 +971,8 @@ func streamPaste(ctx *core.Ctx) {
 		g.s.AddYAML("b/inc.yaml", style, map[string]any{"include": []any{"../shared/d.yaml"}, "services": map[string]any{"sb": svc("y")}})
 		g.s.AddYAML("compose.yaml", 0, map[string]any{"include": []any{map[string]any{"path": "a/inc.yaml", "project_directory": c06lib.Root + "/a"}, "b/inc.yaml"}, "services": map[string]any{"m": svc("m")}})
 		ents := []c06lib.Entry{{Paths: []string{"a/inc.yaml"}, ProjDir: "a"}, {Paths: []string{"b/inc.yaml"}, ProjDir: "b"}}
-		ctx.Count("paste:diamond+abs-project_directory")
-		ctx.Add("c06.paste", pasteArgs(g, "compose.yaml", ents, nil, "paste", "diamond+abs-project_directory"))
+		ctx.Count("paste:diamond-abs-project_directory")
+		ctx.Add("c06.paste", pasteArgs(g, "compose.yaml", ents, nil, "paste", "diamond"))
 	}
 
 	// 5. nested includes whose env_file / project_directory is relative: the including project is itself included,
